@@ -522,6 +522,130 @@ def rule_r7_keys(ctx: Ctx) -> None:
     approx_keys.rule(ctx, "C02.R7", ["_serializable"], "two different length sets (or two types with different layouts) may compare equal: a variant / field dropped or looked up by equality changes the set of possible lengths", "pydsdl/_serializable/_composite.py", roots=["__init__", "bit_length_set", "alignment_requirement", "extent", "aggregate_bit_length_sets", "inner_type", "length_field_type", "tag_field_type", "delimiter_header_type"], min_reached=40)
 
 
+def rule_r8_concrete(ctx: Ctx) -> None:
+    """R5 compares the layout *definitions* over abstract operands; this rule builds concrete nested types through the real
+    constructors and the real length-set algebra (all evaluated from the source) and asks them everything - twice, and in an
+    order in which containers are expanded before what they contain: a type shared by several containers must answer the
+    Specification's values however often and in whatever order its containers have been inspected."""
+    import itertools as _it
+
+    from ..absint import APath, Raised, construct, ctor_hook, module_call_hook, path_hook
+    from ..fold import Folder, Unfoldable
+    from .c01 import _quiet_hook
+    from .c11 import _version
+
+    ctx.rule("C02.R8", "concrete nested types (arrays of composites, unions and structures sharing a nested type, delimited types), built by evaluation of the constructors: bit_length_set (min, max, expansion, residues), alignment_requirement and extent equal the Specification's values on every pass, whatever was inspected before [bounded grid, evaluated from the source]", min_instances=1)
+    prim = ctx.cls(SER + "_primitive.PrimitiveType")
+
+    def hook_for(c: Any) -> Any:
+        return path_hook(ctor_hook(ctx, module_call_hook(ctx, c.module, [], [], results={"check_name": None}, record=["check_name"], base_hook=_quiet_hook)))
+
+    def mk(label: str, short: str, *a: Any, **k: Any) -> Any:
+        c = ctx.cls(SER + short)
+        try:
+            return construct(ctx, c, *a, hook=hook_for(c), **k)
+        except Raised as r:
+            raise AnalysisError("%s cannot be constructed: %s" % (label, r.cls_name))
+        except Unfoldable as ex:
+            raise AnalysisError("%s cannot be constructed over the rule's arguments: %s" % (label, ex))
+
+    try:
+        TRU = Folder({}, ctx.repo, prim.module, prim).fold(ast.parse("PrimitiveType.CastMode.TRUNCATED", mode="eval").body)
+    except Unfoldable as ex:
+        raise AnalysisError("the cast modes cannot be evaluated: %s" % ex)
+
+    def pad(xs: Any, a: int) -> frozenset:
+        return frozenset(-(-x // a) * a for x in xs)
+
+    def rep(xs: Any, k: int) -> frozenset:
+        return frozenset(sum(c) for c in _it.combinations_with_replacement(sorted(xs), k))
+
+    def prefix(cap: int) -> int:
+        return next(w for w in (8, 16, 32, 64) if cap < 2**w)
+
+    # (label, object, Specification set, alignment, extent)
+    world: List[Tuple[str, Any, frozenset, int, Optional[int]]] = []
+    serial = [0]
+
+    def uint(n: int) -> Tuple[Any, frozenset, int]:
+        return mk("uint%d" % n, "_primitive.UnsignedIntegerType", n, TRU), frozenset({n}), 1
+
+    def struct(label: str, fields: List[Tuple[Any, frozenset, int]], union: bool = False) -> Tuple[Any, frozenset, int]:
+        serial[0] += 1
+        attrs = [mk("field", "_attribute.Field", t, "f%d" % i) for i, (t, _, _) in enumerate(fields)]
+        o = mk(label, "_composite.UnionType" if union else "_composite.StructureType", name="ns.T%d" % serial[0], version=_version(1, 0), attributes=attrs, deprecated=False, fixed_port_id=None, source_file_path=APath("/r/ns/T%d.1.0.dsdl" % serial[0]), has_parent_service=False, doc="")
+        if union:
+            tag = prefix(len(fields) - 1)
+            sp = pad(frozenset(tag + x for _, xs, _ in fields for x in xs), 8)
+        else:
+            cur = frozenset({0})
+            for _, xs, al in fields:
+                cur = pad(cur, al)
+                cur = frozenset(x + y for x in cur for y in xs)
+            sp = pad(cur, 8)
+        world.append((label, o, sp, 8, max(sp)))
+        return o, sp, 8
+
+    def farr(label: str, el: Tuple[Any, frozenset, int], n: int) -> Tuple[Any, frozenset, int]:
+        o = mk(label, "_array.FixedLengthArrayType", el[0], n)
+        sp = rep(el[1], n)
+        world.append((label, o, sp, el[2], None))
+        return o, sp, el[2]
+
+    def varr(label: str, el: Tuple[Any, frozenset, int], cap: int) -> Tuple[Any, frozenset, int]:
+        o = mk(label, "_array.VariableLengthArrayType", el[0], cap)
+        body = frozenset(x for k in range(cap + 1) for x in rep(el[1], k))
+        sp = frozenset(prefix(cap) + x for x in body)
+        world.append((label, o, sp, el[2], None))
+        return o, sp, el[2]
+
+    def delim(label: str, inner: Tuple[Any, frozenset, int], extent: int) -> Tuple[Any, frozenset, int]:
+        o = mk(label, "_composite.DelimitedType", inner[0], extent)
+        sp = frozenset(32 + x for x in range(0, extent + 1, 8))
+        world.append((label, o, sp, 8, extent))
+        return o, sp, 8
+
+    u8, u3, u64, u17 = uint(8), uint(3), uint(64), uint(17)
+    inner = struct("Inner {uint8[<=2]}", [varr("uint8[<=2]", u8, 2)])
+    outer = struct("Outer union {Inner, uint64}", [inner, u64], union=True)
+    user = struct("User {Inner, uint8}", [inner, u8])
+    odd = struct("Odd {uint3, Inner, uint17, uint8[<=2]}", [u3, inner, u17, varr("uint8[<=2] (second)", u8, 2)])
+    arr = farr("Inner[3]", inner, 3)
+    varr("Outer[<=2]", outer, 2)
+    both = struct("Both union {Inner[3], Outer, uint3}", [arr, outer, u3], union=True)
+    dl = delim("delimited Inner, extent 64", inner, 64)
+    struct("Holder {delimited Inner, Inner, uint3}", [dl, inner, u3])
+    struct("Top {Both, User, Odd}", [both, user, odd])
+    divisors = (3, 8, 16)
+
+    def ask(obj: Any, what: str) -> Any:
+        try:
+            r = Folder({"x": obj}, ctx.repo, prim.module, None, hook_for(prim)).fold(ast.parse(what, mode="eval").body)
+        except Raised as ex:
+            return ("raised", ex.cls_name)
+        except Unfoldable as ex:
+            raise AnalysisError("%s cannot be evaluated on a constructed type: %s" % (what, ex))
+        return frozenset(r) if isinstance(r, (set, frozenset, list)) else r
+
+    bad: List[Dict[str, Any]] = []
+    n = 0
+    orders = [("outermost first, twice", list(reversed(world)) * 2), ("innermost first", list(world))]
+    for order_name, seq in orders:
+        for label, obj, sp, al, ext in seq:
+            want = {"x.bit_length_set.min": min(sp), "x.bit_length_set.max": max(sp), "set(x.bit_length_set)": sp, "x.alignment_requirement": al, "len(x.bit_length_set)": len(sp), "x.bit_length_set.fixed_length": len(sp) == 1}
+            if ext is not None:
+                want["x.extent"] = ext
+            for d in divisors:
+                want["set(x.bit_length_set %% %d)" % d] = frozenset(v % d for v in sp)
+            for q, w in want.items():
+                got = ask(obj, q)
+                n += 1
+                if got != w and len(bad) < 6:
+                    bad.append({"type": label, "query": q, "order": order_name, "found": sorted(got) if isinstance(got, frozenset) else got, "Specification": sorted(w) if isinstance(w, frozenset) else w})
+    ctx.count(n)
+    ctx.check(not bad, "_serializable.* x _bit_length_set", "%d concrete types x %d queries x 3 passes" % (len(world), 7 + len(divisors)), "every type's layout is the Specification's, before and after the types around it have been inspected", "pydsdl/_serializable", bad[:4])
+
+
 def run(ctx: Ctx) -> None:
     ctx.attempt(rule_r1_prefix, ctx)
     ctx.attempt(rule_r2_tag, ctx)
@@ -530,6 +654,7 @@ def run(ctx: Ctx) -> None:
     ctx.attempt(rule_r5_terms, ctx)
     ctx.attempt(rule_r6_extent, ctx)
     ctx.attempt(rule_r7_keys, ctx)
+    ctx.attempt(rule_r8_concrete, ctx)
     ctx.assume("reachable alignments are {1, 8} (R4); capacities < 2**64")
     ctx.undecided("that every element of every set is a multiple of the alignment as a *set* fact, and the exactness of the bit-length-set arithmetic itself (C01)")
     ctx.analysed["modules"] = ["_serializable/_primitive", "_void", "_array", "_composite"]
